@@ -242,8 +242,8 @@ def random_schedule(rng, front, n_events, weights=None, junk=None, verdicts=None
                 dig = 0
                 cbp = rng.random() < 0.4
                 if rng.random() < 0.15:
+                    # CanBePrefix together with an implicit digest still names one packet
                     dig = rng.choice([1, 2]) + 10 * NAMES.index(name)
-                    cbp = False
                 t = {'name': name, 'cbp': cbp, 'dig': dig, 'life': rng.choice([1, 1, 2, 3])}
                 if a == 'Express':
                     emit({'a': a, 't': t, 'defer': rng.random() < defer_p})
